@@ -58,7 +58,10 @@ def gen_case(run_seed: int, tier: str) -> dict[str, Any]:
         if i:
             k.shuffle(perm)
         scheds.append({"list_seed": k.getrandbits(32), "listing": "native" if i == 0 else k.choice(["shuffle", "shuffle", "reverse", "sorted"]), "arg_perm": perm, "via": "api" if i % 2 == 0 else "cli"})
-    return {"check": CHECK, "run_seed": run_seed, "tier": tier, "entries": tree["entries"], "settings": settings, "args": args, "schedules": scheds}
+    # sometimes the whole project lives under a directory whose name is default-excluded
+    # (components above the arguments are the caller's business and must not be judged)
+    under = sub_rng(run_seed, "under").choice([None] * 6 + ["build", "dist", "node_modules", "venv"])
+    return {"check": CHECK, "run_seed": run_seed, "tier": tier, "entries": tree["entries"], "settings": settings, "args": args, "schedules": scheds, "under": under}
 
 
 class Env:
@@ -178,6 +181,9 @@ def _path_key(p: str) -> tuple[str, ...]:
 
 def _run_case(case: dict[str, Any], scratch: str, want_trace: bool) -> dict[str, Any]:
     scratch = os.path.realpath(scratch)
+    if case.get("under"):
+        scratch = os.path.join(scratch, case["under"])
+        os.makedirs(scratch)
     build(scratch, case["entries"])
     ref = c17model.Ref(scratch, case["settings"])
     args = list(case["args"])
